@@ -220,6 +220,55 @@ def fgets (inp : Bytes) : Option (Bytes × Bytes) :=
     let n := if ln.length < lim.length then ln.length + 1 else ln.length
     some (inp.take n, inp.drop n)
 
+/-! compiled-code replacement for `fgets` (the driver runs documents of 70 000 lines): the definition
+    takes `MAX_LINESIZE - 1` bytes of the file for every line read, `fgetsFast` scans to the newline
+    only. Proved equal (`@[csimp]`): theorems are about `fgets`, the driver executes `fgetsFast`. -/
+
+/-- at most `k` bytes, up to and including the first newline; `acc` = bytes taken so far, reversed -/
+def scanLine : Nat → Bytes → Bytes → Bytes × Bytes
+  | 0, l, acc => (acc.reverse, l)
+  | _ + 1, [], acc => (acc.reverse, [])
+  | k + 1, c :: l, acc => if c = 10 then ((c :: acc).reverse, l) else scanLine k l (c :: acc)
+
+def fgetsFast (inp : Bytes) : Option (Bytes × Bytes) :=
+  if inp = [] then none else some (scanLine (maxLineSize - 1) inp [])
+
+/-- the line cut of `fgets` on the first `k` bytes -/
+def cut (k : Nat) (inp : Bytes) : Nat :=
+  let lim := inp.take k
+  let ln := lim.takeWhile (· != 10)
+  if ln.length < lim.length then ln.length + 1 else ln.length
+
+theorem scanLine_eq (k : Nat) : ∀ (inp acc : Bytes),
+    scanLine k inp acc = (acc.reverse ++ inp.take (cut k inp), inp.drop (cut k inp)) := by
+  induction k with
+  | zero => intro inp acc; simp [scanLine, cut]
+  | succ k ih =>
+    intro inp acc
+    cases inp with
+    | nil => simp [scanLine, cut]
+    | cons c l =>
+      unfold scanLine
+      by_cases hc : c = 10
+      · subst hc
+        simp [cut]
+      · rw [if_neg hc, ih]
+        have hcut : cut (k + 1) (c :: l) = cut k l + 1 := by
+          have htw : List.takeWhile (· != 10) (c :: List.take k l) = c :: List.takeWhile (· != 10) (List.take k l) := by
+            simp [hc]
+          simp only [cut, List.take_succ_cons, List.length_cons, htw]
+          split <;> split <;> omega
+        rw [hcut]
+        simp
+
+@[csimp] theorem fgets_eq_fast : @fgets = @fgetsFast := by
+  funext inp
+  unfold fgets fgetsFast
+  split
+  · rfl
+  · rw [scanLine_eq]
+    simp [cut]
+
 /-- after `fgets`: when the buffer is full (`strlen(buf) == MAX_LINESIZE − 1`) and does not end with a
     newline, the rest of the line is read and discarded (`fgetc` up to and including `\n`, or to the
     end of the file). Result: what is left of the file, and `toolong` = at least one byte of the line
